@@ -916,7 +916,10 @@ func (g *gen) topFunc(leaf bool) {
 		if named {
 			r := g.name("r")
 			rs = append(rs, r+" "+t)
-			g.declare(r, t)
+			v := g.declare(r, t)
+			if !isScalar(t) {
+				v.typ = "result:" + t // nil until assigned: never picked by the random statements
+			}
 			g.fn.named = append(g.fn.named, r)
 		} else {
 			rs = append(rs, t)
